@@ -164,8 +164,241 @@ let my_variant (name : string) : mysql_variant =
       mv_co2ch = tbl co_maria }
   | v -> failwith ("mysql variant " ^ v)
 
+(* round 5: realm level (DiffRealm.v) *)
+let parse_schema_x () =
+  let cs = next_opt () in
+  let co = next_opt () in
+  let cm = next_opt () in
+  let s = parse_schema () in
+  { sx_schema = s; sx_charset = cs; sx_collate = co; sx_comment = cm }
+
+let parse_realm () =
+  let cs = next_opt () in
+  let co = next_opt () in
+  let n = next_int () in
+  let ss = times n parse_schema_x in
+  { r_charset = cs; r_collate = co; r_schemas = ss }
+
+let show_sattr = function
+  | SAddAttr (a, v) -> "+A(" ^ k a ^ ":" ^ hexb v ^ ")"
+  | SModifyAttr (a, v1, v2) -> "~A(" ^ k a ^ ":" ^ hexb v1 ^ ">" ^ hexb v2 ^ ")"
+
+let show_rchange = function
+  | AddSchema n -> "+S(" ^ raw n ^ ")"
+  | DropSchema n -> "-S(" ^ raw n ^ ")"
+  | ModifySchema (n, cs) -> "~S(" ^ raw n ^ "){" ^ String.concat "," (Stdlib.List.map show_sattr cs) ^ "}"
+  | InSchema (n, c) -> raw n ^ "/" ^ show_schange c
+
+let rskip_of_mask (m : int) (t : rtag) : bool =
+  match t with
+  | RtAddSchema -> m land 8192 <> 0
+  | RtDropSchema -> m land 16384 <> 0
+  | RtModifySchema -> m land 32768 <> 0
+  | RtTag t -> skip_of_mask m t
+
+(* one realm case: <id> R|X <dialect> <mask> <realm> <realm>; X = SchemaDiff of the first schemas *)
+let process_realm line =
+  toks := Array.of_list (Stdlib.List.filter (fun s -> s <> "") (String.split_on_char ' ' line));
+  pos := 0;
+  let id = next () in
+  let op = next () in
+  let dialect = next () in
+  let mask = next_int () in
+  let from = parse_realm () in
+  let to_ = parse_realm () in
+  let rskip = rskip_of_mask mask in
+  let realm_diff, schema_diff_x = match dialect with
+    | "sqlite" -> sqlite_realm_diff, sqlite_schema_diff_x
+    | "mysql" -> let v = my_variant "default" in mysql_realm_diff_v v, mysql_schema_diff_x_v v
+    | "postgres" -> pg_realm_diff_ns [], pg_schema_diff_x_ns []
+    | "postgres-ns" -> pg_realm_diff_ns (bytes_of_string "public"), pg_schema_diff_x_ns (bytes_of_string "public")
+    | d -> failwith ("dialect " ^ d) in
+  let res = match op with
+    | "R" -> realm_diff rskip from to_
+    | "X" ->
+      (match from.r_schemas, to_.r_schemas with
+       | s1 :: _, s2 :: _ -> schema_diff_x rskip from s1 s2
+       | _ -> None)
+    | o -> failwith ("op " ^ o) in
+  let obs = match res with
+    | None -> "err"
+    | Some [] -> "[]"
+    | Some cs -> String.concat ";" (Stdlib.List.map show_rchange cs) in
+  id ^ " " ^ obs ^ "\n"
+
+(* round 5: table attributes (DiffTableAttrs.v) *)
+let parse_table_x () =
+  let cm = next_opt () in
+  let cs = next_opt () in
+  let co = next_opt () in
+  let en = match next () with
+    | "~" -> None
+    | s -> (match String.split_on_char ':' s with
+            | [v; d] -> Some (bytes_of_string (unhex v), d = "1")
+            | _ -> failwith "engine") in
+  let ai = match next () with "~" -> None | s -> Some (n_of_int (int_of_string s)) in
+  let sv = next_bool () in
+  let pt = next_opt () in
+  let t = parse_table () in
+  { tx_table = t; tx_comment = cm; tx_charset = cs; tx_collate = co; tx_engine = en; tx_autoinc = ai;
+    tx_sysver = sv; tx_partition = pt }
+
+let parse_schema_tx () =
+  let name = next_str () in
+  let cs = next_opt () in
+  let co = next_opt () in
+  let n = next_int () in
+  let ts = times n parse_table_x in
+  { stx_name = name; stx_charset = cs; stx_collate = co; stx_tables = ts }
+
+(* <id> S|T <dialect> <mask> <schema_tx> <schema_tx>; T = TableDiff of the first tables *)
+let process_tattrs line =
+  toks := Array.of_list (Stdlib.List.filter (fun s -> s <> "") (String.split_on_char ' ' line));
+  pos := 0;
+  let id = next () in
+  let op = next () in
+  let dialect = next () in
+  let mask = next_int () in
+  let skip = skip_of_mask mask in
+  if op = "K" then begin
+    (* <id> K <dialect> <mask> <schema charset|~> <schema collation|~> <table_xk> <table_xk>;
+       table_xk = <n> { <name> <expr> <flag> } <table_x without checks> *)
+    let pcs = next_opt () in
+    let pco = next_opt () in
+    let parse_xk () =
+      let nk = next_int () in
+      let ks = times nk (fun () -> let n = next_str () in let e = next_str () in let f = next_bool () in
+                                   { kx_name = n; kx_expr = e; kx_flag = f }) in
+      let tx = parse_table_x () in
+      { xk_table = tx; xk_checks = ks } in
+    let from = parse_xk () in
+    let to_ = parse_xk () in
+    let td = match dialect with
+      | "mysql" -> mysql_table_diff_xk (my_variant "default")
+      | "postgres" -> pg_table_diff_xk []
+      | d -> failwith ("dialect " ^ d) in
+    id ^ " " ^ (match td skip pcs pco from to_ with None -> "err" | Some cs -> show_subs cs) ^ "\n"
+  end else
+  let from = parse_schema_tx () in
+  let to_ = parse_schema_tx () in
+  let schema_diff, table_diff = match dialect with
+    | "mysql" -> let v = my_variant "default" in mysql_schema_diff_tx v, mysql_table_diff_tx v
+    | "postgres" -> pg_schema_diff_tx [], pg_table_diff_tx []
+    | d -> failwith ("dialect " ^ d) in
+  let obs = match op with
+    | "S" ->
+      (match schema_diff skip from to_ with
+       | None -> "err"
+       | Some [] -> "[]"
+       | Some cs -> String.concat ";" (Stdlib.List.map show_schange cs))
+    | "T" ->
+      (match from.stx_tables, to_.stx_tables with
+       | t1 :: _, t2 :: _ ->
+         (match table_diff skip from.stx_charset from.stx_collate t1 t2 with
+          | None -> "err"
+          | Some cs -> show_subs cs)
+       | _ -> "err")
+    | o -> failwith ("op " ^ o) in
+  id ^ " " ^ obs ^ "\n"
+
+(* round 5: views (DiffViews.v) *)
+let parse_schema_v () =
+  let s = parse_schema () in
+  let nv = next_int () in
+  let vs = times nv (fun () ->
+    let name = next_str () in
+    let def = next_str () in
+    let mat = next_bool () in
+    let nc = next_int () in
+    let cols = times nc (fun () -> let n = next_str () in let c = next_opt () in (n, c)) in
+    let ni = next_int () in
+    let idx = times ni parse_idx in
+    { v_name = name; v_def = def; v_mat = mat; v_cols = cols; v_idx = idx }) in
+  { sv_schema = s; sv_views = vs }
+
+let show_svchange = function
+  | ST c -> show_schange c
+  | SV (AddView (n, m)) -> "+V(" ^ raw n ^ ":" ^ (if m then "1" else "0") ^ ")"
+  | SV (DropView (n, m)) -> "-V(" ^ raw n ^ ":" ^ (if m then "1" else "0") ^ ")"
+  | SV (ModifyView (n, m, cs)) -> "~V(" ^ raw n ^ ":" ^ (if m then "1" else "0") ^ ")" ^ show_subs cs
+
+(* <id> V <dialect> <mask> <schema_v> <schema_v> *)
+let process_views line =
+  toks := Array.of_list (Stdlib.List.filter (fun s -> s <> "") (String.split_on_char ' ' line));
+  pos := 0;
+  let id = next () in
+  let _op = next () in
+  let dialect = next () in
+  let mask = next_int () in
+  let from = parse_schema_v () in
+  let to_ = parse_schema_v () in
+  let vskip = function
+    | VtAddView -> mask land 8192 <> 0
+    | VtDropView -> mask land 16384 <> 0
+    | VtModifyView -> mask land 32768 <> 0
+    | VtTag t -> skip_of_mask mask t in
+  let sd = match dialect with
+    | "sqlite" -> sqlite_schema_diff_v
+    | "mysql" -> mysql_schema_diff_v_v (my_variant "default")
+    | "postgres" -> pg_schema_diff_v_ns []
+    | d -> failwith ("dialect " ^ d) in
+  let obs = match sd vskip from to_ with
+    | None -> "err"
+    | Some [] -> "[]"
+    | Some cs -> String.concat ";" (Stdlib.List.map show_svchange cs) in
+  id ^ " " ^ obs ^ "\n"
+
+(* round 5: enum objects (DiffObjects.v) *)
+let process_objects line =
+  toks := Array.of_list (Stdlib.List.filter (fun s -> s <> "") (String.split_on_char ' ' line));
+  pos := 0;
+  let id = next () in
+  let _op = next () in
+  let _dialect = next () in
+  let mask = next_int () in
+  let parse_schema_o () =
+    let s = parse_schema () in
+    let n = next_int () in
+    let es = times n (fun () -> let t = next_str () in let nv = next_int () in let vs = times nv next_str in
+                                { e_T = t; e_values = vs }) in
+    { so_schema = s; so_enums = es } in
+  let from = parse_schema_o () in
+  let to_ = parse_schema_o () in
+  let oskip = function
+    | OtAddObject -> mask land 8192 <> 0
+    | OtDropObject -> mask land 16384 <> 0
+    | OtModifyObject -> mask land 32768 <> 0
+    | OtTag t -> skip_of_mask mask t in
+  let hexs vs = String.concat "," (Stdlib.List.map hexb vs) in
+  let show = function
+    | SOT c -> show_schange c
+    | SO (AddObject t) -> "+O(" ^ raw t ^ ")"
+    | SO (DropObject t) -> "-O(" ^ raw t ^ ")"
+    | SO (ModifyObject (t, v1, v2)) -> "~O(" ^ raw t ^ ")[" ^ hexs v1 ^ ">" ^ hexs v2 ^ "]" in
+  let obs = match pg_schema_diff_o [] oskip from to_ with
+    | None -> "err"
+    | Some [] -> "[]"
+    | Some cs -> String.concat ";" (Stdlib.List.map show cs) in
+  id ^ " " ^ obs ^ "\n"
+
 let () =
   let dialect = if Array.length Sys.argv > 1 then Sys.argv.(1) else "sqlite" in
+  if dialect = "objects" then begin
+    (try while true do let l = input_line stdin in if l <> "" then print_string (process_objects l) done with End_of_file -> ());
+    exit 0
+  end;
+  if dialect = "views" then begin
+    (try while true do let l = input_line stdin in if l <> "" then print_string (process_views l) done with End_of_file -> ());
+    exit 0
+  end;
+  if dialect = "tattrs" then begin
+    (try while true do let l = input_line stdin in if l <> "" then print_string (process_tattrs l) done with End_of_file -> ());
+    exit 0
+  end;
+  if dialect = "realm" then begin
+    (try while true do let l = input_line stdin in if l <> "" then print_string (process_realm l) done with End_of_file -> ());
+    exit 0
+  end;
   let schema_diff, table_diff = match dialect with
     | "sqlite" -> sqlite_schema_diff, sqlite_table_diff
     | "mysql" -> let v = my_variant "default" in mysql_schema_diff_v v, mysql_table_diff_v v
